@@ -5,15 +5,18 @@
       (`RunAccept.skipReason`; the table obligation `Generated/C08TablesCheck.lean`, regenerated on every
       run by executing the real method on all 2^7 combinations, ties it to the code).
   (2) Scheduler-level guarantees that hold for EVERY task graph, worker count and interleaving, with a
-      keyboard interrupt at any moment: the run still terminates, every task — teardown tasks included — is
-      still handled exactly once, tasks queued by the interrupt are only ever skipped, and nothing is left
-      undispatched.
-  Which teardowns run after which consumers under an interrupt is NOT claimed: with ≥ 2 workers the real
-  `skip_all_tasks` ignores dependencies (known finding D11, `…/interrupt-with-threads-tears-down-under-running-tests`).
+      keyboard interrupt at any moment (`skip_all_tasks` as repaired by fix D11: the remaining tasks are
+      released for skipping in dependency order): the run still terminates, every task — teardown tasks
+      included — is still handled exactly once, a task that had not been handed to the pool when the interrupt
+      arrived is only ever skipped, tasks are still released only when their dependencies are completed (and
+      as soon as they are), and NO task — in particular no suite / session teardown task and no suite-end
+      task — starts before every task it depends on has finished: teardowns never run under a test that is
+      still in flight, interrupted run or not.
 -/
 import LccModel.Model.RunAccept
-import LccModel.Lemmas.SchedProgress
+import LccModel.Lemmas.SchedInterrupt
 import LccModel.Props.C01
+import LccModel.Props.C03
 
 namespace LccModel.C08
 open LccModel.RunAccept LccModel.Sched
@@ -52,10 +55,55 @@ theorem interrupt_forced_tasks_only_skipped {Tid : Type} [DecidableEq Tid] (g : 
     m = .skip :=
   (inv_reachable hr).forcedSkip t m hf hm
 
-/-- After the interrupt nothing stays undispatched: every remaining task has been handed to the pool. -/
-theorem interrupt_dispatches_everything {Tid : Type} [DecidableEq Tid] (g : Graph Tid) (n : Nat)
-    (s : State Tid) (hr : Reachable g n s) (ha : s.aborted = true) (t : Tid) : s.phase t ≠ .remaining :=
-  (inv_reachable hr).abortedNoRem ha t
+/-- A task that was still waiting in `remaining_tasks` when the abort flag was set is never run: whatever
+    happens afterwards (any continuation `ls` of the run), the only decision ever recorded for it is `skip`. -/
+theorem interrupt_waiting_tasks_only_skipped {Tid : Type} [DecidableEq Tid] (g : Graph Tid) (n : Nat)
+    (s : State Tid) (hr : Reachable g n s) (ha : s.aborted = true) (t : Tid) (hrem : s.phase t = .remaining)
+    (ls : List (Label Tid)) (s' : State Tid) (h : run g n s ls = some s') (m : Mode) (hm : s'.mode t = some m) :
+    m = .skip :=
+  remaining_at_abort_only_skipped hr ha t hrem ls h m hm
+
+/-- After an interrupt tasks are still released in dependency order: in EVERY reachable state (aborted or
+    not) a task that has left `remaining_tasks` — queued, running, done or completed — has all its dependencies
+    completed; and the release is eager: in an aborted state a task of the graph that is still waiting has a
+    dependency that is not completed yet (nothing runnable is left behind). -/
+theorem interrupt_respects_dependencies {Tid : Type} [DecidableEq Tid] (g : Graph Tid) (n : Nat)
+    (s : State Tid) (hr : Reachable g n s) (t : Tid) :
+    (s.phase t ≠ .remaining → ∀ d ∈ g.deps t, s.phase d = .completed) ∧
+    (s.aborted = true → t ∈ g.tasks → s.phase t = .remaining → ∃ d ∈ g.deps t, s.phase d ≠ .completed) := by
+  refine ⟨(inv_reachable hr).deps t, fun ha ht hrem => ?_⟩
+  apply Classical.byContradiction
+  intro hno
+  have hall : ∀ d ∈ g.deps t, s.phase d = .completed := by
+    intro d hd
+    apply Classical.byContradiction
+    intro hne; exact hno ⟨d, hd, hne⟩
+  have := aborted_nothing_runnable hr ha t ht
+  rw [runnable_true_iff.mpr ⟨hrem, hall⟩] at this
+  cases this
+
+/-- **Ordering under interrupt** (the statement finding D11 refuted before the repair): for any task `t` and
+    any dependency `d` of `t`, in ANY reachable state — interrupted runs included, force-skipped tasks
+    included — if `t` has started then `d` finished before (ghost clock). -/
+theorem interrupt_no_task_starts_before_its_dependencies_finished {Tid : Type} [DecidableEq Tid] (g : Graph Tid)
+    (n : Nat) (s : State Tid) (hr : Reachable g n s) (t d : Tid) (hd : d ∈ g.deps t)
+    (i : Nat) (hi : s.startAt t = some i) : ∃ j, s.finishAt d = some j ∧ j < i :=
+  ((inv_reachable hr).order t i hi d hd).2
+
+/-- … instantiated for the tasks the finding was about, for every valid project and every reachable state — in
+    particular after a keyboard interrupt (no hypothesis excludes `s.aborted = true`): the suite teardown task
+    (which tears down the suite-scoped fixtures and calls `teardown_suite`, also when it is skipped) starts only
+    after every test of the suite has finished, and the session teardown task only after every top-level suite
+    has ended. -/
+theorem interrupt_teardowns_wait_for_tests {P : Run.Proj} (hv : TaskGraph.Valid P) (n : Nat)
+    (s : State Run.TaskId) (hr : Reachable (TaskGraph.graphOf P) n s) :
+    (∀ sv : Run.SuiteView, sv ∈ Run.allSuites P → Run.hasInit P sv = true →
+       ∀ i, s.startAt ⟨.teardown, sv.path⟩ = some i →
+       ∀ t : Run.TestSpec, t ∈ sv.spec.tests → ∃ j, s.finishAt ⟨.test, sv.path ++ [t.name]⟩ = some j ∧ j < i) ∧
+    (Run.hasSessSetup P = true → ∀ i, s.startAt ⟨.sessTeardown, []⟩ = some i →
+       ∀ top ∈ P.suites, ∃ j, s.finishAt ⟨.end_, [top.name]⟩ = some j ∧ j < i) :=
+  ⟨fun _ hsv hinit i hi => (C03.suite_teardown_after_setup_and_tests hv hsv hinit n s hr i hi).2,
+   fun hs i hi => C03.session_teardown_after_all_suites hv hs n s hr i hi⟩
 
 /-- The interrupted run still terminates and still handles every task (teardown tasks included) exactly
     once: deadlock freedom and the exactly-once bookkeeping hold in every reachable state, aborted or not. -/
@@ -69,11 +117,39 @@ theorem interrupted_run_terminates_and_handles_all {Tid : Type} [DecidableEq Tid
   · rw [hinv.starts t, hf t ht]; simp [Phase.rank]
   · obtain ⟨r, _, hr', _, _⟩ := hinv.resultSome t (Or.inr (hf t ht)); exact ⟨r, hr'⟩
 
-/-! Non-vacuity: an interrupt in the middle of the sample graph of C01; the run completes. -/
-example : ((run C01.sampleGraph 2 (init C01.sampleGraph 2)
-    [.start 0 false, .finish 0 .success, .receive 0, .start 2 false, .interrupt, .finish 2 .success,
-     .start 1 true, .finish 1 .skipped, .start 3 false, .finish 3 .skipped, .start 4 false, .finish 4 .skipped,
-     .receive 1, .receive 2, .receive 3, .receive 4]).map (fun s => (finalB C01.sampleGraph s, s.mode 3, s.mode 4)))
-    = some (true, some .skip, some .skip) := by decide
+/-! Non-vacuity: an interrupt in the middle of the sample graph of C01 (task 2 is running, task 1 queued by the
+    normal loop, 3 and 4 — which depend on 1 and 2 — still waiting); the run completes, 3 and 4 are skipped. -/
+def interruptedSample : List (Label Nat) :=
+  [.start 0 false, .finish 0 .success, .receive 0, .start 2 false, .interrupt, .finish 2 .success,
+   .start 1 true, .finish 1 .skipped, .receive 1, .receive 2, .start 3 false, .finish 3 .skipped,
+   .start 4 false, .finish 4 .skipped, .receive 3, .receive 4]
+
+example : ((run C01.sampleGraph 2 (init C01.sampleGraph 2) interruptedSample).map
+    (fun s => (finalB C01.sampleGraph s, s.mode 3, s.mode 4))) = some (true, some .skip, some .skip) := by decide
+
+/-- `interrupt_forced_tasks_only_skipped`, `interrupt_waiting_tasks_only_skipped`: right after the interrupt tasks 3
+    and 4 are still waiting (hypothesis of the second theorem), nothing is forced yet; at the end they are forced -/
+example : ((run C01.sampleGraph 2 (init C01.sampleGraph 2) (interruptedSample.take 5)).map
+    (fun s => (s.aborted, s.phase 3, s.phase 4, s.forced 3))) = some (true, .remaining, .remaining, false) := by decide
+example : ((run C01.sampleGraph 2 (init C01.sampleGraph 2) interruptedSample).map
+    (fun s => (s.forced 1, s.forced 3, s.forced 4))) = some (false, true, true) := by decide
+
+/-- `interrupt_respects_dependencies`: after the interrupt, when 1 is completed but 2 only done, 3 and 4 are still
+    waiting (dependency 2 not completed); receiving 2 releases both -/
+example : ((run C01.sampleGraph 2 (init C01.sampleGraph 2) (interruptedSample.take 9)).map
+    (fun s => (s.phase 1, s.phase 2, s.phase 3, s.phase 4))) = some (.completed, .done, .remaining, .remaining) := by decide
+example : ((run C01.sampleGraph 2 (init C01.sampleGraph 2) (interruptedSample.take 10)).map
+    (fun s => (s.phase 2, s.phase 3, s.phase 4))) = some (.completed, .queued, .queued) := by decide
+
+/-- `interrupt_no_task_starts_before_its_dependencies_finished`: 3 and 4 (force-skipped) start at 10 and 12, after
+    1 (finished at 7) and 2 (finished at 5) -/
+example : ((run C01.sampleGraph 2 (init C01.sampleGraph 2) interruptedSample).map
+    (fun s => (s.finishAt 1, s.finishAt 2, s.startAt 3, s.startAt 4))) = some (some 7, some 5, some 10, some 12) := by decide
+
+/-- `interrupt_teardowns_wait_for_tests`: the interrupted run `C03.interruptedRun` of the sample project is such a
+    state (aborted, teardown of `a` started at 22 after its tests finished at 17 and 20) -/
+example : ((run (TaskGraph.graphOf C01Graph.sampleProj) 2 (init (TaskGraph.graphOf C01Graph.sampleProj) 2) C03.interruptedRun).map
+    (fun s => (s.aborted, s.finishAt ⟨.test, ["a", "t1"]⟩, s.finishAt ⟨.test, ["a", "t2"]⟩, s.startAt ⟨.teardown, ["a"]⟩)))
+    = some (true, some 17, some 20, some 22) := by decide +kernel
 
 end LccModel.C08
